@@ -163,7 +163,7 @@ theorem config_fixpoint_aux (ext : Ext ℝ) (s : Setup ℝ) (hc : Canonical s)
         pp := pp'
         signalWaistPos := -(Transc.abs (sigfigs (s.signalWaistPos / micro))) * micro
         idlerWaistPos := -(Transc.abs (sigfigs (s.idlerWaistPos / micro))) * micro
-        deff := sigfigs (s.deff / pmPerVolt) * pmPerVolt } := by
+        deff := toDeff (sigfigs (s.deff / pmPerVolt)) } := by
     unfold tryAsSpdc tryAsSpdcG
     have e1 : (asConfig s).signal = s.signal.toCfg s.signalWaistPos true := rfl
     have e2 : (asConfig s).poling = s.pp.toCfg := rfl
@@ -182,6 +182,6 @@ theorem config_fixpoint_aux (ext : Ext ℝ) (s : Setup ℝ) (hc : Canonical s)
   simp only [asConfigG] at h1 h2 h3 ⊢
   rw [h1, h2, h3, hppc]
   simp [PumpCfg.asBeam, Beam.new, Beam.wavelength, wl_roundtrip, nano_roundtrip, micro_roundtrip,
-    pmPerVolt_roundtrip, one_roundtrip, sigfigs_idem]
+    pmPerVolt_roundtrip, toDeff_roundtrip, one_roundtrip, sigfigs_idem]
 
 end Spdc.Cfg
